@@ -460,6 +460,12 @@ func (packet *PacketHandler) readDataLength() error {
 	return nil
 }
 
+// ErrInvalidPacketLength is returned when the length field of a message is less than its own size
+var ErrInvalidPacketLength = errors.New("invalid postgresql message length")
+
+// maxPacketPreallocation limits memory reserved on the word of the (untrusted) length field
+const maxPacketPreallocation = 64 * 1024
+
 // readData part of packet
 func (packet *PacketHandler) readData(readLength bool) error {
 	if readLength {
@@ -467,7 +473,16 @@ func (packet *PacketHandler) readData(readLength bool) error {
 			return err
 		}
 	}
-	packet.descriptionBuf.Grow(packet.dataLength)
+	if packet.dataLength < 0 {
+		// declared message length is smaller than the length field itself
+		return ErrInvalidPacketLength
+	}
+	// the length comes from the wire: reserve a bounded amount up front, the buffer grows with the data really received
+	growLength := packet.dataLength
+	if growLength > maxPacketPreallocation {
+		growLength = maxPacketPreallocation
+	}
+	packet.descriptionBuf.Grow(growLength)
 	packet.logger.Debugln("Read data")
 	nn, err := io.CopyN(packet.descriptionBuf, packet.reader, int64(packet.dataLength))
 	return base.CheckReadWrite(int(nn), packet.dataLength, err)
